@@ -7,7 +7,7 @@ import json, os, shutil, subprocess, sys, tempfile, glob
 
 VERIF = os.path.dirname(os.path.dirname(os.path.abspath(__file__)))
 MAP = {
-    "c37_constraints_arg": ["C37", "C35"], "c24_assert_ne": ["C24"], "c01_absorbed_eps": ["C01"],
+    "c37_constraints_arg": ["C37"], "c24_assert_ne": ["C24"], "c01_absorbed_eps": ["C01"],
     "c23_flip_before_rescale": ["C23"], "c35_mutation_rate_guard": ["C35"], "c35_max_shape_assert": ["C35"],
     "c36_direct_savetxt": ["C36"], "c34_cli_bool_split": ["C34"],
 }
@@ -21,12 +21,19 @@ def run_variant(name, patch, reverse, props):
         if r.returncode != 0:
             return [(name, p, "PATCH-FAILED", r.stdout[-200:]) for p in props]
         out = []
-        for p in props:
+        allp = props
+        if os.environ.get("REGRESS_ALL"):
+            man = json.load(open(os.path.join(VERIF, "MANIFEST.json")))
+            allp = props + [c["property_id"] for c in man["checks"] if c["property_id"] not in props]
+        for p in allp:
             env = dict(os.environ, VERIF_REPO=tmp, VERIF_NO_EVIDENCE="1")
             r = subprocess.run([os.path.join(VERIF, "check"), p], capture_output=True, text=True, env=env)
             v = [l for l in r.stdout.splitlines() if l.startswith("VIOLATION")]
             first = [l for l in r.stdout.splitlines() if l.startswith("  ")][:1]
-            out.append((name, p, "detected" if r.returncode == 1 and v else f"MISSED(exit {r.returncode})", (first or [""])[0][:160]))
+            if p in props:
+                out.append((name, p, "detected" if r.returncode == 1 and v else f"MISSED(exit {r.returncode})", (first or [""])[0][:160]))
+            elif r.returncode != 0:
+                out.append((name, p, f"detected-also(exit {r.returncode})", (first or [l for l in r.stdout.splitlines() if "ANALYSIS-ERROR" in l] or [""])[0][:160]))
         return out
     finally:
         shutil.rmtree(tmp, ignore_errors=True)
